@@ -1,14 +1,56 @@
-"""C09 - the front end is total (DESIGN 5/C09): lexer (tokenize) + depth guards."""
+"""C09 - the front end is total (DESIGN 5/C09): lexer (tokenize) + depth guards of type checker and parser."""
 import os, re
 
 META = {
     "level": "proof",
     "trusted_base": [
-        "contracts/lexer_contracts.h (tokenize contract written from the property statement; assumed libc contracts)",
-        "contracts/loops/lexer.c.loops (loop invariants/variants: checked, not trusted; ghost statements: trusted to be side-effect free on program state)",
+        "contracts/lexer_contracts.h: tokenize contract written from the property statement (every NUL-terminated buffer of length <= 10 MB; "
+        "result NULL after free(tokens), or an array of 1..len+1 tokens ending in EOF) and the assumed libc contracts listed under assumptions",
+        "contracts/loops/lexer.c.loops: loop invariants/variants are CHECKED (base, step, decreases), not trusted; the ghost statements it inserts "
+        "only assign __verif_ ghosts (two of them call lex_case / lex_nul_index, whose __CPROVER_assume is listed under assumptions)",
+        "harness/depth_h.c: contracts of check_expression / check_statement / parse_block and of the callees they are proved against",
     ],
-    "assumptions": [],
-    "undecided_part": "",
+    "assumptions": [
+        # --- lexer ---
+        "LENGTH: source length <= 10 MB = the limit of src/nanovirt/main.c read_file(); src/main.c compile_file() and src/module.c have NO size "
+        "limit before tokenize(): for a file >= 2 GB tokenize's `int i/line/count` overflow (not covered; observation, see report)",
+        "CASE SPLIT (X): one main-loop iteration is checked per class of its first byte (5 classes, class 4 = complement of the others, "
+        "exhaustiveness also checked by C09.lex.cases); implemented by __CPROVER_assume(class(source[i])) in lex_case(), called from a ghost statement "
+        "at the top of the loop body. C09.lex.tokenize.unsplit (thorough tier) is the same proof without the split",
+        "CTYPE: isspace/isalpha/isalnum/isdigit are glibc table lookups (*__ctype_b_loc())[c]; the table is a 384-entry array (indices -128..255) with "
+        "ARBITRARY content except: isdigit(0)=isalpha(0)=isalnum(0)=0 and isalpha(c)=>isalnum(c) (what the lexer's termination/bounds rest on). "
+        "tokenize passes plain `char` (negative for bytes >= 0x80) to these macros without an unsigned-char cast: indices -128..-1, inside glibc's "
+        "table (no out-of-bounds read: proved against the 384-entry table) but undefined behaviour by ISO C 7.4p1 on other libcs (portability observation)",
+        "ALLOCATION SUCCEEDS: malloc/realloc never return NULL (framework-wide; tokenize does not check either result)",
+        "ALLOCATOR MODEL (token array): realloc grows the block in place (returns its argument); sound for tokenize because it holds exactly one "
+        "pointer to the block and overwrites it with realloc's result (checked: realloc's argument is the block returned by the first malloc). The block has "
+        "an ARBITRARY ghost usable size __verif_S; a run whose request exceeds __verif_S is cut (assume) in that world. World S = max: no run is cut "
+        "(every request checked <= max). World S = size last requested: every token store is bounds-checked by CBMC against exactly the requested size",
+        "malloc (text buffers): assumed contract `returns a fresh block of exactly n bytes` (replaced call, __CPROVER_is_fresh in ensures)",
+        "free: asserts `NULL or start of a live block`, records the argument; deallocation itself is NOT modelled, so use-after-free/double free inside "
+        "tokenize would go unnoticed (by reading: each free(x) is followed by `continue`, `i++; continue` or `return NULL`)",
+        "strdup: asserts its argument is NUL-terminated inside its object (ghost index set right after the lexer's own `x[len] = 0`), returns an "
+        "arbitrary pointer (tokenize only stores it); strncpy: asserts dst writable and src readable for n bytes; strcmp: asserts first argument "
+        "NUL-terminated; fprintf: no effect; snprintf: destination valid for n bytes and (C99 7.19.6.5) NUL-terminated within n bytes "
+        "(lex_nul_index: __CPROVER_assume(k < n && s[k] == 0))",
+        "INPUT OBJECTS are allocated by the harness (exact sizes, arbitrary content, terminator at len) instead of __CPROVER_is_fresh in the "
+        "precondition: same generality, 13x smaller formula (shared index expressions)",
+        "memory leaks are not part of C09: on its four error paths tokenize frees the token array but not the strdup'ed token texts (observation)",
+        # --- depth guards ---
+        "DEPTH (type checker): check_expression_impl / check_statement_impl are replaced by `precondition: counter in 1..2000; the counter is not "
+        "changed on return` (they change it only through nested check_expression/check_statement calls, each of which restores it by the proved "
+        "contract: induction over the call depth, GLUE not machine-checked; the registry checks syntactically that the two counters occur only "
+        "inside the two wrappers)",
+        "DEPTH (parser): parse_block is a BOUNDED stand-in (block of <= 2 statements, loop unwound 4 times), all 7 callees by assumed contracts "
+        "(parse_statement: entered with counter in 1..1000, returns with it restored); parser_error's frame is given as empty because DFCC 6.11 "
+        "mis-handles the write set of replaced variadic functions",
+    ],
+    "undecided_part": "parser memory safety and termination as a whole (39 functions; the error-recovery loops of parse_block/parse_program/"
+                      "parse_statement; C09.parse.progress not built); parse_expression's depth balance (4 loops, 3 nested, with realloc/strdup, 17 callees "
+                      "incl. itself: a bounded DFCC stand-in with 13 replaced callees did not finish symbolic execution in 600 s; by reading, three of its "
+                      "return paths - parser.c lines 2349, 2354, 2422 - return without `p->recursion_depth--`; 8 native inputs did not reach them); parse_block only as bounded stand-in; process_imports (file system); type checker "
+                      "termination and memory safety beyond the two depth wrappers; whether every TYPE_UNKNOWN produced at the depth limit ends in a non-zero "
+                      "exit status (one native run with a 2500-term infix chain: exit 1 with diagnostics); sources > 10 MB through nanoc/module loader",
 }
 
 LEX = "harness/lexer_h.c"
@@ -16,48 +58,66 @@ LANN = [("src/lexer.c", "contracts/loops/lexer.c.loops")]
 CASES = {0: "skip", 1: "quoted", 2: "number", 3: "ident", 4: "rest"}
 NULL_CASES = (1,)       # classes in which tokenize can return NULL
 # after a refutation: plain bounded search (no DFCC, CBMC's own libc models, C-locale ctype table) for a concrete
-# input of <= 6 bytes that makes the real tokenize fail a built-in check / loop forever; replayed natively
-WIT = {"replayer": "lex", "override": {"enforce": None, "replace": [], "loops": False, "annotate": [], "unwind": 12,
+# input of <= 3 bytes that makes the real tokenize fail a built-in check / loop forever; replayed natively
+WIT = {"replayer": "lex", "override": {"enforce": None, "replace": [], "loops": False, "annotate": [], "unwind": 4,
                                        "object_bits": None, "backends": ["minisat"], "timeout": 300, "must_have": [],
-                                       "defines": {"LEX_WIT_MAX": 6, "LEX_CTAB_CONCRETE": 1}}}
+                                       "defines": {"LEX_WIT_MAX": 3, "LEX_CTAB_CONCRETE": 1}}}
+# when the sidecar no longer fits the code (loop count / ghost anchors changed): tools/vc.py runs this bounded search on
+# the real function instead; only a definite counterexample counts (REFUTED), anything else stays undecided
+FALLBACK = dict(WIT["override"], defines={"LEX_WIT_MAX": 3, "LEX_CTAB_CONCRETE": 1, "VERIF_WITNESS": 1}, min_checks=1)
+LEX_MUST = [r"tokenize\.postcondition", r"tokenize\.loop_invariant_step", r"tokenize\.loop_decreases",
+            r"tokenize\.loop_invariant_base", r"libc: realloc", r"libc: strncpy", r"libc: strdup", r"libc: free"]
+
+
+def _only_in_wrappers(repo):
+    """the induction glue of C09.depth rests on the counters being touched by the wrappers only"""
+    try:
+        s = open(os.path.join(repo, "src/typechecker.c"), encoding="utf-8", errors="replace").read()
+    except OSError:
+        return False
+    return len(re.findall(r"\bg_check_expr_depth\b", s)) == 5 and len(re.findall(r"\bg_check_stmt_depth\b", s)) == 5
+
+
+def lexer_obligation(oid, defines, tier, weight):
+    return dict(id=oid, prop="C09", harness=LEX, entry="h_tokenize", annotate=LANN, include_repo=["", "src"],
+                defines=defines, enforce="tokenize", replace=["malloc"], loops=True,
+                unwind=12,                 # 9 targets in the main loop's assigns clause + 3 (DFCC library loops)
+                object_bits=9, backends=["cadical"], strength="X", functions=["tokenize"], timeout=1500, tier=tier,
+                weight=weight, witness=WIT, fallback=FALLBACK, must_have=LEX_MUST, min_checks=2000)
 
 
 def obligations(repo):
     obs = []
-    # tokenize, main-loop iteration split over the class of its first byte (X); every loop under a loop contract,
-    # length symbolic up to the driver's 10 MB limit
+    # tokenize; every loop under a loop contract; length symbolic up to the driver's 10 MB limit;
+    # main-loop iteration split over the class of its first byte (X)
     for k, nm in CASES.items():
         d = {"LEX_CASE": k}
         if k in NULL_CASES:
             d["LEX_COVER_NULL"] = 1
-        obs.append(dict(id="C09.lex.tokenize." + nm, prop="C09", harness=LEX, entry="h_tokenize", annotate=LANN,
-                        include_repo=["", "src"], defines=d, enforce="tokenize", replace=["malloc"] + (os.environ.get("RPX", "").split()), loops=True,
-                        unwind=12, object_bits=9, backends=["cadical"], strength="X", functions=["tokenize"], timeout=900,
-                        weight=10, witness=WIT,
-                        must_have=[r"tokenize\.postcondition", r"tokenize\.loop_invariant_step", r"tokenize\.loop_decreases",
-                                   r"tokenize\.loop_invariant_base", r"libc: realloc", r"libc: strncpy"], min_checks=2000))
+        obs.append(lexer_obligation("C09.lex.tokenize." + nm, d, "quick", 10))
+    o = lexer_obligation("C09.lex.tokenize.unsplit", {"LEX_COVER_NULL": 1}, "thorough", 20)
+    o["strength"] = "U"
+    obs.append(o)
     obs.append(dict(id="C09.lex.cases", prop="C09", harness=LEX, entry="h_cases", include_repo=["", "src"],
                     strength="U", functions=["tokenize(case split)"], must_have=[r"case split is exhaustive"], min_checks=1))
     DEP = "harness/depth_h.c"
+    guard = [] if _only_in_wrappers(repo) else [r"SYNTACTIC GUARD: g_check_(expr|stmt)_depth must occur only in the two wrappers"]
     obs.append(dict(id="C09.depth.check_expression", prop="C09", harness=DEP, entry="h_check_expression",
                     defines={"DEPTH_TYPECHECKER": 1}, enforce="check_expression", replace=["check_expression_impl"], unwind=6,
                     strength="U", functions=["check_expression"],
                     must_have=[r"check_expression\.postcondition", r"check_expression_impl\.precondition",
-                               r"C09\.depth limit constant"], min_checks=10, timeout=300))
+                               r"C09\.depth limit constant"] + guard, min_checks=10, timeout=300))
     obs.append(dict(id="C09.depth.check_statement", prop="C09", harness=DEP, entry="h_check_statement",
                     defines={"DEPTH_TYPECHECKER": 1}, enforce="check_statement", replace=["check_statement_impl"], unwind=6,
                     strength="U", functions=["check_statement"],
                     must_have=[r"check_statement\.postcondition", r"check_statement_impl\.precondition",
-                               r"C09\.depth limit constant"], min_checks=10, timeout=300))
-    # experimentation hooks (not used by any tier)
-    for o in obs:
-        if o["id"].startswith("C09.lex.tokenize"):
-            if "OB" in os.environ:
-                o["object_bits"] = int(os.environ["OB"])
-            if "SC" in os.environ:
-                o["annotate"] = [("src/lexer.c", os.environ["SC"])]
-            if "DEF" in os.environ:
-                for kv in os.environ["DEF"].split():
-                    k, v = kv.split("=")
-                    o["defines"][k] = v
+                               r"C09\.depth limit constant"] + guard, min_checks=10, timeout=300))
+    PREPL = ["current_token", "parser_error", "advance", "match", "expect", "parse_statement", "create_node"]
+    obs.append(dict(id="C09.depth.parse_block.bounded", prop="C09", harness=DEP, entry="h_parse_block",
+                    defines={"DEPTH_PARSER": 1, "DEPTH_UNWIND": 4}, enforce="parse_block", replace=PREPL, unwind=9,
+                    unwindset=["parse_block_wrapped_for_contract_checking.0:4"], object_bits=10,
+                    strength="B(block of <= 2 statements: statement loop unwound 4 times; all callees by assumed contracts)",
+                    functions=["parse_block"], timeout=600,
+                    must_have=[r"parse_block\.postcondition", r"parse_statement\.precondition", r"C09\.depth limit constant"],
+                    min_checks=10))
     return obs
